@@ -97,7 +97,8 @@ def check_execution(iso, strat, order, feed, grass, want=("C06", "C07")):
 
     def bad(lst, clause, a, m, detail):
         if sum(1 for x in lst if x["clause"] == clause) < 2:
-            lst.append(violation(clause, dict(key, species=a.animal_type if a is not None else None),
+            lst.append(violation(clause, dict(key, species=a.animal_type if a is not None else None,
+                                              iso3_species="%s:%s" % (iso, a.animal_type) if a is not None else None),
                                  "%s %s order=%s month %d: %s" % (iso, strat, order, m, detail), rp))
 
     if "C06" in want:
